@@ -9,7 +9,7 @@ from . import ops as O
 from .ops import And, Or, Not, ite, Implies
 from .tensor import Tn, Cell, Unsupported, basic_index, norm_slice
 from .values import (SymRaise, PathEnd, SStr, DType, Opaque, LibFn, BoundMethod, RepoFn, PyType,
-                     Iter, CatList, StackList, UNDEF, ModuleRef)
+                     Iter, CatList, StackList, UNDEF, ModuleRef, StarAbstract)
 from .interp import MinMax, unwrap_scalar, is_boolish, is_realish, is_scalar
 
 LIB = {}
@@ -1278,7 +1278,7 @@ def _len(fr, x):
     raise Unsupported("len of %r" % (type(x),))
 
 
-@lib('builtins.range', 'tqdm.trange', 'trange')
+@lib('builtins.range', 'tqdm.trange', 'trange', 'tqdm.std.trange')
 def _range(fr, *a, **kw):
     a = [unwrap_scalar(x) for x in a]
     if len(a) == 1:
@@ -1301,16 +1301,21 @@ def _range(fr, *a, **kw):
             return Iter(O.simp(ite(n < 0, 0, n)), lambda i: lo - i)
         if sts > 1:
             n = O.floordiv(hi - lo + sts - 1, sts)
-            return Iter(O.simp(ite(hi - lo <= 0, 0, n)), lambda i: lo + sts * i)
+            return Iter(O.simp(ite(hi - lo <= 0, 0, n)), lambda i: lo + sts * i,
+                        has=lambda i: lo + sts * i < hi,
+                        done=lambda i: And(lo + sts * i >= hi, Or(O.eq(i, 0), lo + sts * (i - 1) < hi)))
         raise Unsupported("range with negative constant step")
     fr.ctx.may_raise(O.eq(st, 0), 'ValueError')
     if not fr.ctx.entails(st > 0):
         raise Unsupported("range with possibly negative symbolic step")
-    n = O.floordiv(hi - lo + st - 1, st)
-    return Iter(O.simp(ite(hi - lo <= 0, 0, n)), lambda i: lo + O.mul(st, i))
+    # symbolic positive step: trip count characterised without division (DESIGN 2.2.4)
+    cnt = O.fresh_int('trip')
+    return Iter(cnt, lambda i: lo + O.mul(st, i),
+                has=lambda i: lo + O.mul(st, i) < hi,
+                done=lambda i: And(lo + O.mul(st, i) >= hi, Or(O.eq(i, 0), lo + O.mul(st, i - 1) < hi)))
 
 
-@lib('tqdm.tqdm', 'tqdm')
+@lib('tqdm.tqdm', 'tqdm', 'tqdm.std.tqdm')
 def _tqdm(fr, it=None, *a, **kw):
     return it
 
@@ -1325,16 +1330,27 @@ def _enumerate(fr, it, start=0):
 
 @lib('builtins.zip')
 def _zip(fr, *its):
-    if any(isinstance(x, CatList) for x in its):
-        # zip(*y) for an abstract list of k-tuples: k abstract lists
-        raise Unsupported("zip over abstract list (use zip(*y))")
+    if len(its) == 1 and isinstance(its[0], StarAbstract):
+        # zip(*y) for an abstract list of k-tuples: k abstract lists of tensors
+        lst = its[0].lst
+        if lst.tuple_kind is None:
+            raise SymRaise('TypeError')
+        return [type(lst)(lst.count, [v]) for v in lst.views]
+    if any(isinstance(x, (CatList, StackList, StarAbstract)) for x in its):
+        raise Unsupported("zip over abstract list")
     seqs = [fr.as_sequence(x) for x in its]
     if all(isinstance(s, list) for s in seqs):
         return [tuple(x) for x in zip(*seqs)]
     raise Unsupported("zip over abstract sequences")
 
 
-@lib('builtins.list', 'builtins.tuple')
+@lib('builtins.tuple')
+def _tuple(fr, x=None):
+    r = _list(fr, x)
+    return tuple(r) if isinstance(r, list) else r
+
+
+@lib('builtins.list')
 def _list(fr, x=None):
     if x is None:
         return []
